@@ -310,7 +310,7 @@ def _run(ctx):
     ratio_s_ref = T.floors.floor(S * RF(D18) / (R + S), "ref spread ratio")
     errs = {}
     for (b, i, cls, v) in common.exit_sites(P, g):
-        if cls == "err" and v[0] == "agg":
+        if cls == "err" and (v[0] == "agg" or common.rejects_via_check_helper(P, v)):
             errs[b] = common.control_conditions(P, g, b)
     modes = {}
     for b, conds in errs.items():
